@@ -337,8 +337,28 @@ pub struct Typed<'a>(pub &'a Shape, pub &'a Value);
 struct PiecesDisplay<'a>(&'a [String]);
 impl fmt::Display for PiecesDisplay<'_> {
     fn fmt(&self, f: &mut fmt::Formatter<'_>) -> fmt::Result {
-        for p in self.0 {
-            f.write_str(p)?;
+        use std::fmt::Write as _;
+        // the text reaches the formatter through every route a Display impl can take:
+        // write_str, write_char, and nested formatting with and without padding
+        for (i, p) in self.0.iter().enumerate() {
+            match i % 4 {
+                0 => f.write_str(p)?,
+                1 => {
+                    for c in p.chars() {
+                        f.write_char(c)?;
+                    }
+                }
+                2 => write!(f, "{}", p)?,
+                _ => {
+                    // `{:c>0}`: a fill spec that never pads (width 0) but takes the padding path
+                    let mut cs = p.chars();
+                    if let (Some(c), None) = (cs.next(), cs.next()) {
+                        write!(f, "{:>0}", c)?;
+                    } else {
+                        write!(f, "{:>0}", p)?;
+                    }
+                }
+            }
         }
         Ok(())
     }
